@@ -427,6 +427,14 @@ def endnan_traces(tier):
     return traces
 
 
+_MIDCALL = [{"l": "FUNCTION", "u": "ERROR", "op": "SetModes"}, {"op": "EnableAdaptive"}, {"op": "Eval", "xs": [2], "ui": True, "shape": "scalar"},
+            {"op": "Eval", "xs": [11], "ui": True, "shape": "scalar"}, {"op": "NewTable", "a": 8, "b": 12},
+            {"op": "Deriv", "xs": [1, 2], "order": 2, "ui": True, "shape": "1d"}, {"op": "Deriv", "xs": [0], "order": 1, "ui": True, "shape": "list"},
+            {"op": "NewTable", "a": 2, "b": 4}, {"op": "SetModes", "l": "NONE", "u": "CONSTANT"}, {"op": "Eval", "xs": [0, 5], "ui": True, "shape": "2d"}]
+REGRESSION = [(_MIDCALL, "cubic", 1), (_MIDCALL, "cubic", 3), (_MIDCALL, "trans", 2),
+              (_MIDCALL[:8] + [{"op": "SetModes", "l": "NONE", "u": "FUNCTION"}, {"op": "Eval", "xs": [0, 5], "ui": True, "shape": "2d"}], "cubic", 1)]
+
+
 def run(chk, tier, seed):
     res = tlc.run_model("InterpFn.tla", "InterpFn.cfg", coverage=(tier == "thorough"))
     chk.add_model(res, label="exhaustive L=6, MAXLEN=2: contract (rule matrix) in every reachable state")
@@ -464,6 +472,12 @@ def run(chk, tier, seed):
     if traces:
         chk.sample({"id": traces[0]["id"], "behaviour": traces[0]["behaviour"], "events": traces[0]["ev"][:4]})
         chk.sample({"id": traces[-1]["id"], "behaviour": traces[-1]["behaviour"]})
+    # behaviours of the model that exposed a defect under another seed (a088852): an adaptive update fired by the lower,
+    # directly evaluated side in the middle of a call whose other points lie above the table -- kept in both tiers
+    for j, (beh, kind, rvc) in enumerate(REGRESSION):
+        set_map(0)
+        evs = replay_behaviour(Fn, beh, kind, rvc, tmpdir, 100000 + j)
+        traces.append({"id": f"regress{j}_{kind}_rvc{rvc}_map0", "ev": evs, "cell": {"rvc": rvc, "kind": kind, "map": 0}, "behaviour": beh})
     traces += endnan_traces(tier)
     vr = tlc.validate("TraceInterpFn.tla", "TraceInterpFn.cfg", traces)
     chk.add_validation(vr, traces)
